@@ -168,7 +168,7 @@ func runConfig(r *ev.Run) {
 	maxK := ev.Pick(r, 3, 4)
 	repeats := ev.Pick(r, 3, 6)
 	maps := cfgMaps(maxK, true)
-	sub := r.NewSub("configuration", "venum", fmt.Sprintf("every sharding configuration with 1..%d shards over keys %q x weights {0,1,2,7,2^32-1}, each built %d times through NewBlobAccessFromConfiguration (Go map iteration order varies between builds) x 6 digests x 3 instance names x {Put,Get,GetFromComposite,FindMissing}", maxK, compKeys, repeats))
+	sub := r.NewSub("configuration", "venum", fmt.Sprintf("every sharding configuration with 1..%d shards over keys %q x weights {0,1,2,7,2^32-1}, each built %d times through NewBlobAccessFromConfiguration (Go map iteration order varies between builds) x 8 digests x 3 instance names x {Put,Get,GetFromComposite,FindMissing}", maxK, compKeys, repeats))
 	done := sub.Timer()
 	stats := make([]compStats, len(maps))
 	var mu sync.Mutex
